@@ -1,0 +1,8 @@
+//go:build !verif
+
+package snap
+
+// The verification hooks in addPointsAndSnap are compiled out without the build tag "verif".
+const verifEnabled = false
+
+func verifTrace(string, ...any) {}
